@@ -161,3 +161,23 @@ for _k in ("C09", "C10", "C11", "C12", "C13"):
 
 PROPS["C20"]["bounded_scenarios"] = "bounded: the real oxmpl_py extension module (built from the tree under check) under the real CPython; 4 planners x R^2 problem; validity callback failing on a band of states in 6 ways (raise, None, 1, 'valid', [True], 1.0); goal.is_satisfied failing in 4 ways; each compared with the run whose callback returns False on the same states (same seed); oxmpl-js cannot be executed here (no wasm target)"
 PROPS["C20"]["explanation"] += " BOUNDED stand-in (never counted as proved): replay/py/c20_scenarios.py drives the REAL bindings with failing Python callbacks and compares with the run whose callbacks return False on the same states; it attaches concrete failing inputs to violations of the Python half."
+
+PROPS["C19"] = dict(
+    v_units=["py_bindings", "py_rrt", "py_rrt_connect", "py_rrt_star", "py_prm"], level="proof",
+    design_ref="DESIGN.md section 6, C19 (as built)",
+    technique="contract-based deductive verification: Verus (Z3) on the mechanically extracted real oxmpl-py wrapper bodies with spliced DELEGATION contracts; the oxmpl core is a set of uninterpreted deterministic functions",
+    explanation="Verus on the real oxmpl-py wrapper bodies (state wrappers, state conversion, planner config, R^n / SO(2) / SO(3) / SE(2) / SE(3) space wrappers, ProblemDefinition.from_*, Path conversions, and new / setup / solve [/ construct_roadmap] of the RRT, RRT-Connect, RRT* and PRM wrappers for all six problem variants) against DELEGATION contracts. The core is modelled as uninterpreted deterministic functions of its arguments (prelude pybind.rs), so what is proved is exactly the differential claim at the wrapper level: every wrapper returns what the core function returns on exactly the wrapped arguments (same values, same order, same objects) -- state constructors / getters, distance, extent, resolution setter; a space constructor raises ValueError exactly when the core constructor returns an error and otherwise wraps the core's space; a problem definition holds a snapshot of the wrapped space, exactly the wrapped start state and the given goal object; a planner wrapper constructs the core planner of the variant of its problem with exactly (parameters.., config.seed), setup hands it the stored problem and a checker around exactly the given callback, solve passes the timeout on and returns the core's path unchanged (state for state: the same OxmplPath value) or raises Exception exactly when the core returns an error; wrapping and unwrapping states are lossless inverses. Together with C07 (seeded determinism of the core), C20 (the callback wrappers implement exactly the Python callbacks) and C01-C03 for PRM this is the statement of C19 modulo the pyo3 argument-conversion glue.",
+    assumptions=["verus/prelude/pybind.rs: the oxmpl core as uninterpreted deterministic functions (constructors, distance, extent, setters, accessors, planner new / setup / solve / construct_roadmap); faithful Clone of core state and space types; Arc / Rc as transparent boxes",
+                 "pyo3: the attribute macros (#[pyclass], #[pymethods], #[new], #[getter], #[staticmethod], #[classmethod], #[pyo3(signature)]) are dropped: the generated argument-conversion glue (Python float -> f64 / f32, list -> Vec, object -> PyRef) is NOT verified; PyValueError / PyException constructors only record the exception kind",
+                 "std Mutex / RefCell as a two-state view per wrapper call (content on entry / on return); poisoning, re-entrant borrows (BorrowMutError) and calls from Python callbacks back into the same planner are not modelled",
+                 "unit rules PB1 (`e.to_string()`), PB2-PB5 (`.lock().unwrap()`, `.borrow()`, `.borrow_mut()` -> named cell accessors), PB6 (closure parameter pattern -> variable + let), R12 (closure header), R15; `__repr__`, Path.from_*_states and Path.states (pyo3 list API, iterator adapters) are external_body with blanked bodies; the names of core types follow the files' dropped `use .. as ..` blocks (type aliases in the unit text)",
+                 "the wrapper struct invariant `planner variant == problem variant` is established by the only constructor (private fields) and is a precondition of setup",
+                 "Verus 0.2026.09.13 / Z3"],
+    not_covered=["the pyo3 glue itself and CPython (the executed extension module is NOT compared with the core here: that would be a differential test, a different family; the bounded Python family of C20 exercises the real module but checks fail-closed behaviour only)",
+                 "CompoundState / CompoundStateSpace wrappers (constructors and component access use the pyo3 extraction / list API)",
+                 "Duration::from_secs_f32 panics for a negative / non-finite timeout (surfaces as PanicException in Python): not modelled",
+                 "`bit-identical arithmetic in the callbacks` is the user's side of the comparison"],
+)
+
+PROPS["C19"]["bounded_scenarios"] = "bounded differential: the real oxmpl_py module (built from the tree under check, real CPython) against the core's own answers (`oxmpl-replay pyref`): RRT / RRT-Connect / RRT* x {R^2 box world, SO(2) arc world} x goal_bias {0, 0.05} x 3 seeds, paths compared state for state and bit for bit (callbacks use comparisons and the core's distance only; the goal sampler is deterministic); distances / extents / canonicalised angles on a few values; constructor ValueError lattice (R^1, SO(2) bounds over 10 special values incl. NaN / inf, dimension / length mismatches, SO(3) radius, SE(2) / SE(3) bound counts)"
+PROPS["C19"]["explanation"] += " BOUNDED stand-in (never counted as proved; it is a differential test, not a contract): replay/py/c19_scenarios.py compares the executed extension module with the core on mirrored problems; this is what covers the pyo3 glue that the delegation contracts cannot see."
